@@ -235,12 +235,16 @@ Definition SITE_LANG_UNWRAP : N := 2201.   (* config.constant_pair.get(&language
 
 Definition constant_of (cfg : config F) (lang : str) (word : str) : res (option consttype) :=
   match lang_constants cfg lang with
-  | None => Panic SITE_LANG_UNWRAP
+  | None => Ok None                       (* unknown language: no duration words *)
   | Some m => Ok (assoc word m)
   end.
 
-(* checked i64 multiplication of the dev profile followed by the Duration constructor *)
-Definition mul_days (k n : Z) : res Z := do d <- i64_chk (k * n); dur_days d.
+(* checked_mul / checked_add and the try_* constructors: None when out of range *)
+Definition chk_i64 (z : Z) : option Z := if i64_ok z then Some z else None.
+Definition try_dur (secs : Z) : option Z := if dur_ok secs then Some secs else None.
+Definition try_days (n : Z) : option Z := try_dur (n * 86400).
+Definition opt_dur (o : option Z) : rret :=
+  match o with Some d => Ok (Some (TDuration d)) | None => Ok None end.
 
 Definition duration_parse (cfg : config F) (lang : str) (vs : vars F) (fs : fields) : rret :=
   if has "duration" fs && has "type" fs then
@@ -256,22 +260,19 @@ Definition duration_parse (cfg : config F) (lang : str) (vs : vars F) (fs : fiel
         | None => none
         | Some c =>
           match c with
-          | CYear => do d <- mul_days 365 n; some (TDuration d)
+          | CYear => opt_dur (option_bind (chk_i64 (n * 365)) try_days)
           | CMonth =>
             let years := Z.quot n 12 in let month := Z.rem n 12 in
-            do a <- i64_chk (365 * years); do b <- i64_chk (30 * month); do c <- i64_chk (a + b);
-            do d <- dur_days c; some (TDuration d)
+            opt_dur (option_bind (option_bind (chk_i64 (years * 365)) (fun d => chk_i64 (d + 30 * month))) try_days)
           | CDay =>
             let years := Z.quot n 365 in
             let month := Z.quot (Z.rem n 365) 30 in
             let day := Z.rem (Z.rem n 365) 30 in
-            do a <- i64_chk (365 * years); do b <- i64_chk (30 * month);
-            do c <- i64_chk (a + b); do c' <- i64_chk (c + day);
-            do d <- dur_days c'; some (TDuration d)
-          | CWeek => do d <- dur_weeks n; some (TDuration d)
-          | CHour => do d <- dur_hours n; some (TDuration d)
-          | CMinute => do d <- dur_minutes n; some (TDuration d)
-          | CSecond => do d <- dur_seconds n; some (TDuration d)
+            opt_dur (try_days (365 * years + 30 * month + day))
+          | CWeek => opt_dur (try_dur (n * 604800))
+          | CHour => opt_dur (try_dur (n * 3600))
+          | CMinute => opt_dur (try_dur (n * 60))
+          | CSecond => opt_dur (try_dur n)
           | _ => none
           end
         end
@@ -287,7 +288,7 @@ Definition combine_durations (vs : vars F) (fs : fields) : rret :=
        | (k, _) :: r =>
          match get_duration vs k fs with
          | None => none
-         | Some d => do sum' <- dur_check SITE_DURATION_RANGE (sum + d); go r sum'
+         | Some d => match try_dur (sum + d) with Some sum' => go r sum' | None => none end
          end
        end) fs 0
   else none.
@@ -380,10 +381,10 @@ Definition small_date (cfg : config F) (vs : vars F) (fs : fields) : rret :=
     end
   else none.
 
-(* get_number_or_time (tools.rs:193-203): NaiveTime::from_hms(number as u32, 0, 0) panics for >= 24 *)
+(* get_number_or_time (tools.rs:193-203): NaiveTime::from_hms_opt(number as u32, 0, 0) *)
 Definition get_number_or_time (vs : vars F) (k : str) (fs : fields) : res (option Z) :=
   match get_number vs k fs with
-  | Some x => do t <- time_from_hms (as_u32 x) 0 0; Ok (Some t)
+  | Some x => let h := as_u32 x in Ok (if h <? 24 then Some (h * 3600) else None)
   | None => Ok (option_map (fun p => secs_of_day (fst p)) (get_time vs k fs))
   end.
 
@@ -431,7 +432,8 @@ Definition from_unixtime (cfg : config F) (vs : vars F) (fs : fields) : rret :=
     match get_number vs (s "number") fs with
     | None => Panic SITE_RULE_UNWRAP
     | Some x =>
-      do t <- dt_from_timestamp (as_i64 x);
+      let t := as_i64 x in
+      if negb (dt_ok t) then none else          (* from_timestamp_opt *)
       match get_timezone vs (s "timezone") fs with
       | Some (n, o) => some (TDateTime t {| tz_name := to_uppercase n; tz_off := o |})
       | None => some (TDateTime t (get_time_offset cfg))
